@@ -14,13 +14,18 @@ theorem C15_kinds (env : Env) (s : State) (tx : Tx) :
     (isSwapRequest s tx = true → tx.kind = .swap) ∧
     (isDepositRequest s tx = true → tx.kind = .liqDeposit) ∧
     (isWithdrawRequest env s tx = true → tx.kind = .liqWithdraw) := by
-  sorry
+  exact ⟨fun h => (isSwapRequest_spec h).1, fun h => (isDepositRequest_spec h).1,
+    fun h => (isWithdrawRequest_spec h).1⟩
 
 /-- … and a data field that names the pool in its one canonical spelling -/
 theorem C15_requests_name_pool (env : Env) (s : State) (tx : Tx)
     (h : isSwapRequest s tx = true ∨ isDepositRequest s tx = true ∨ isWithdrawRequest env s tx = true) :
     ∃ k, canonicalPoolKey tx.data = some k := by
-  sorry
+  rcases h with h | h | h
+  · obtain ⟨_, k, _, hk, _⟩ := isSwapRequest_spec h
+    exact ⟨k, hk⟩
+  · exact (isDepositRequest_spec h).2
+  · exact (isWithdrawRequest_spec h).2
 
 /-- a transaction of another kind, or whose data does not name a pool, is no request -/
 def NotARequest (tx : Tx) : Prop :=
@@ -33,29 +38,35 @@ theorem C15_kind_filter (env : Env) (s : State) (a : Option ProposerAction) (ss 
     (hnr : ∀ tx ∈ s.txs, tx.hash = id.txhash → NotARequest tx)
     (hrw : id.txhash ≠ env.rewardId s.height) :
     ss.st.coins.getCoin id = s.coins.getCoin id := by
-  sorry
+  exact sealState_coins id env s a ss h hnr hrw
 
 /-! ### a pool name has one spelling, and a side is only ever its own denomination -/
 
 /-- what `canonical_pool_key` accepts: canonical order, no `NewCustom` placeholder, the exact bytes -/
 theorem C15_canonical (data : Bytes) (k : PoolKey) (h : canonicalPoolKey data = some k) :
     bytesLt k.left.toBytes k.right.toBytes = true ∧ k.left ≠ .newCustom ∧ k.right ≠ .newCustom ∧ k.toBytes = data := by
-  sorry
+  exact canonicalPoolKey_some h
 
 /-- hence two accepted spellings of one pool are the same bytes: no alias can reach a pool's slot -/
 theorem C15_one_spelling (d₁ d₂ : Bytes) (k : PoolKey) (h₁ : canonicalPoolKey d₁ = some k)
     (h₂ : canonicalPoolKey d₂ = some k) : d₁ = d₂ := by
-  sorry
+  rw [← (canonicalPoolKey_some h₁).2.2.2, ← (canonicalPoolKey_some h₂).2.2.2]
 
 /-- the reversed / equal-sided spellings are rejected -/
 theorem C15_reversed_rejected (data : Bytes) (k : PoolKey) (h : canonicalPoolKey data = some k) :
     ∀ data', canonicalPoolKey data' ≠ some { left := k.right, right := k.left } := by
-  sorry
+  intro data' h'
+  have h1 := (canonicalPoolKey_some h).1
+  have h2 := (canonicalPoolKey_some h').1
+  simp only at h2
+  rw [bytesLt_asymm _ _ h1] at h2
+  cases h2
 
 /-- a swap request's first output is in one of the two denominations of the pool it names -/
 theorem C15_swap_own_denom (s : State) (tx : Tx) (h : isSwapRequest s tx = true) :
     ∃ k o, canonicalPoolKey tx.data = some k ∧ tx.outputs.head? = some o ∧ (o.denom = k.left ∨ o.denom = k.right) := by
-  sorry
+  obtain ⟨_, k, o, hk, ho, hd⟩ := isSwapRequest_spec h
+  exact ⟨k, o, hk, ho, hd⟩
 
 /-! ### one price, constant product, fee -/
 
@@ -67,29 +78,40 @@ theorem C15_swap_exact (p p' : PoolState) (l r lw rw : Nat)
     p'.lefts + lw = p.lefts + l ∧ p'.rights + rw = p.rights + r ∧ p'.liqs = p.liqs ∧
     rw = l * (p.rights + r) * 995 / ((p.lefts + l) * 1000) ∧
     lw = r * (p.lefts + l) * 995 / ((p.rights + r) * 1000) := by
-  sorry
+  obtain ⟨hL, hR, erw, elw, el, er, eq⟩ := swapMany_ok hfit h
+  have h1 : rw ≤ p.rights + r := by rw [erw]; exact share_le (by omega)
+  have h2 : lw ≤ p.lefts + l := by rw [elw]; exact share_le (by omega)
+  refine ⟨by omega, by omega, eq, erw, elw⟩
 
 /-- swapping never decreases the reserve product -/
 theorem C15_product (p p' : PoolState) (l r lw rw : Nat)
     (hfit : p.lefts + l ≤ U128_MAX ∧ p.rights + r ≤ U128_MAX)
     (h : p.swapMany l r = .ok (p', lw, rw)) :
     p.lefts * p.rights ≤ p'.lefts * p'.rights := by
-  sorry
+  obtain ⟨hL, hR, erw, elw, el, er, _⟩ := swapMany_ok hfit h
+  rw [el, er, erw, elw]
+  exact swap_product hL hR
 
 /-- a pool with reserves on both sides keeps reserves on both sides -/
 theorem C15_swap_keeps_reserves (p p' : PoolState) (l r lw rw : Nat)
     (hfit : p.lefts + l ≤ U128_MAX ∧ p.rights + r ≤ U128_MAX)
     (h : p.swapMany l r = .ok (p', lw, rw)) : 0 < p'.lefts ∧ 0 < p'.rights := by
-  sorry
+  obtain ⟨hL, hR, erw, elw, el, er, _⟩ := swapMany_ok hfit h
+  have h1 : rw < p.rights + r := by rw [erw]; exact share_lt (by omega) hL hR
+  have h2 : lw < p.lefts + l := by rw [elw]; exact share_lt (by omega) hR hL
+  omega
 
 /-- pro-rata shares rounded down never add up to more than what is split -/
 theorem C15_pro_rata (total : Nat) (vs : List Nat) (hpos : 0 < vs.sum) :
     (vs.map fun v => total * v / vs.sum).sum ≤ total := by
-  sorry
+  have h := pro_rata_aux total vs.sum vs
+  rw [Nat.mul_comm total vs.sum] at h
+  exact Nat.le_of_mul_le_mul_right (by rw [Nat.mul_comm total]; exact h) hpos
 
 /-- `multiply_frac` is the rounded-down share, saturating at u128 -/
 theorem C15_multiply_frac (x n d : Nat) (hd : 0 < d) : multiplyFrac x n d = .ok (min (x * n / d) U128_MAX) := by
-  sorry
+  unfold multiplyFrac satU128
+  rw [if_neg (by omega)]
 
 /-! ### deposits mint and withdrawals burn in proportion to the reserves -/
 
@@ -98,12 +120,56 @@ theorem C15_deposit (p p' : PoolState) (l r minted : Nat) (h : p.deposit l r = .
     (p.liqs = 0 → minted = l ∧ p'.lefts = l ∧ p'.rights = r ∧ p'.liqs = l) ∧
     (p.liqs ≠ 0 → minted = min (Nat.sqrt (p.liqs ^ 2 * (l * r) / (p.lefts * p.rights))) U128_MAX ∧
                    p'.lefts = p.lefts + l ∧ p'.rights = p.rights + r ∧ p'.liqs = min (p.liqs + minted) U128_MAX) := by
-  sorry
+  unfold PoolState.deposit at h
+  split at h
+  · next hz =>
+    cases h
+    exact ⟨fun _ => ⟨rfl, rfl, rfl, rfl⟩, fun hn => absurd hz hn⟩
+  · next hz =>
+    simp only at h
+    split at h
+    · cases h
+    · cases h
+      refine ⟨fun h0 => absurd h0 hz, fun _ => ?_⟩
+      have e1 : satAdd128 l p.lefts - p.lefts = l := by unfold satAdd128; omega
+      have e2 : satAdd128 r p.rights - p.rights = r := by unfold satAdd128; omega
+      rw [e1, e2]
+      exact ⟨rfl, rfl, rfl, rfl⟩
 
 theorem C15_withdraw (p p' : PoolState) (q pl pr : Nat) (h : p.withdraw q = .ok (p', pl, pr)) :
     q ≤ p.liqs ∧ p'.liqs + q = p.liqs ∧ p'.lefts + pl = p.lefts ∧ p'.rights + pr = p.rights ∧
     (q < p.liqs → pl = p.lefts * q / p.liqs ∧ pr = p.rights * q / p.liqs) ∧
     (q = p.liqs → pl = p.lefts ∧ pr = p.rights) := by
-  sorry
+  unfold PoolState.withdraw at h
+  split at h
+  · cases h
+  · split at h
+    · cases h
+    · simp only at h
+      split at h
+      · cases h
+        refine ⟨by omega, by simp only; omega, by simp, by simp, fun hq => by omega, fun _ => ⟨rfl, rfl⟩⟩
+      · cases h
+        have hl : p.lefts * q / p.liqs ≤ p.lefts :=
+          Nat.div_le_of_le_mul (by rw [Nat.mul_comm]; exact Nat.mul_le_mul_right _ (by omega))
+        have hr : p.rights * q / p.liqs ≤ p.rights :=
+          Nat.div_le_of_le_mul (by rw [Nat.mul_comm]; exact Nat.mul_le_mul_right _ (by omega))
+        refine ⟨by omega, by simp only; omega, by simp only; omega, by simp only; omega,
+          fun _ => ⟨rfl, rfl⟩, fun hq => by omega⟩
 
 end Mel
+
+#print axioms Mel.C15_kinds
+#print axioms Mel.C15_requests_name_pool
+#print axioms Mel.C15_kind_filter
+#print axioms Mel.C15_canonical
+#print axioms Mel.C15_one_spelling
+#print axioms Mel.C15_reversed_rejected
+#print axioms Mel.C15_swap_own_denom
+#print axioms Mel.C15_swap_exact
+#print axioms Mel.C15_product
+#print axioms Mel.C15_swap_keeps_reserves
+#print axioms Mel.C15_pro_rata
+#print axioms Mel.C15_multiply_frac
+#print axioms Mel.C15_deposit
+#print axioms Mel.C15_withdraw
